@@ -120,7 +120,7 @@ func (s *meshState2) canon() string {
 	if built {
 		var sp []string
 		for _, v := range s.m.VertexSlice() {
-			sp = append(sp, bits2(v))
+			sp = append(sp, bits2(v.Add(model2d.Coord{}))) // -0 -> +0, see mesh3.go
 		}
 		sort.Strings(sp)
 		key += "|" + strings.Join(sp, ";")
